@@ -107,6 +107,101 @@ def check_grammar(ctx, out, mods, rule="C16.grammar"):
 
 
 
+def check_lookup_model(ctx, out, pfp0, rule="C16.lookup"):
+    """The grammar lookup on a small model (engine.casewalk + engine.strmodel): the file is
+    `src/My.Dir/Ab.Cd.e`; the two tables are abstract - for every choice of which of the candidate keys
+    {e, Cd.e, Ab.Cd.e, X} the parser table holds and which single -E mapping exists, the function is walked
+    and the parser it returns is compared with the documented order: the dot-suffixes of the file's own
+    name from the shortest to the longest, then the whole name; each candidate is first mapped through
+    the -E table; the candidate is used exactly as written (no case folding), directories play no part.
+    True/False if decided, None if the model could not follow the code."""
+    from engine import casewalk as CW
+    from engine import listmodel as LM
+    from engine import strmodel as SM
+    import itertools
+    v = ctx.inl(pfp0, skip=lambda cb: False, tag="all-sugar", sugar=True)
+    ppath = [i for i in range(1, v.argc + 1) if "std::path::Path" in v.local_ty(i)]
+    pmap = [i for i in range(1, v.argc + 1) if "BlocksParser" in v.local_ty(i) and "HashMap" in v.local_ty(i)]
+    pext = [i for i in range(1, v.argc + 1) if re.search(r"HashMap<std::ffi::OsString, std::ffi::OsString>", v.local_ty(i))]
+    if len(ppath) != 1 or len(pmap) != 1 or len(pext) != 1:
+        return None
+    std = CW.std_hooks()
+    lm = LM.hooks()
+    sm = SM.hooks()
+    NAME_ = "Ab.Cd.e"
+    cands = ["e", "Cd.e", NAME_]
+    keys = ["e", "Cd.e", NAME_, "X"]
+    n = 0
+    total = 0
+    for r in range(len(keys) + 1):
+        for have in itertools.combinations(keys, r):
+            for extra in (None, ("e", "X"), ("Cd.e", "X"), ("e", "Cd.e"), (NAME_, "X")):
+                total += 1
+                results = set()
+                asked = []
+
+                def hook(w, bb, t, argv, env):
+                    nm = callee_name(t)
+                    a0 = w.deref_val(env, argv[0]) if argv else CW.TOP
+                    if re.search(r"HashMap::<K, V, S, A>::(get|contains_key)$", nm) and a0[0] == "sym" and len(argv) > 1:
+                        k = w.deref_val(env, argv[1])
+                        if not (CW.is_const(k) and isinstance(k[1], str)):
+                            return None
+                        asked.append((a0[1], k[1]))
+                        if a0[1] == "PARSERS":
+                            hit = k[1] in have
+                            if nm.endswith("contains_key"):
+                                return CW.const(1 if hit else 0)
+                            return CW.adt("std::option::Option", "Some", 1, [("0", CW.sym("P", k[1]))]) if hit else CW.adt("std::option::Option", "None", 0, [])
+                        if a0[1] == "EXTRA":
+                            hit = extra is not None and k[1] == extra[0]
+                            if nm.endswith("contains_key"):
+                                return CW.const(1 if hit else 0)
+                            return CW.adt("std::option::Option", "Some", 1, [("0", CW.const(extra[1]))]) if hit else CW.adt("std::option::Option", "None", 0, [])
+                    r_ = sm(w, bb, t, argv, env)
+                    if r_ is not None:
+                        return r_
+                    r_ = lm(w, bb, t, argv, env)
+                    if r_ is not None:
+                        return r_
+                    return std(w, bb, t, argv, env)
+                w = CW.Walk(ctx, v, [hook], max_states=20000)
+
+                def on_visit(bb, env):
+                    tm = v.blocks[bb]["term"]
+                    if tm and tm["k"] == "return":
+                        r0 = env.get(0, CW.TOP)
+                        if r0[0] == "adt" and r0[2] == "Some":
+                            p0 = w.deref_val(env, w.field(r0, "0"))
+                            results.add("P(%s)" % p0[2] if p0[0] == "sym" and p0[1] == "P" else "?")
+                        elif r0[0] == "adt" and r0[2] == "None":
+                            results.add("none")
+                        else:
+                            results.add("?")
+                w.on_visit = on_visit
+                env = {ppath[0]: CW.const("src/My.Dir/" + NAME_), pmap[0]: CW.sym("PARSERS"), pext[0]: CW.sym("EXTRA")}
+                try:
+                    w.explore(0, env)
+                except CW.Limit:
+                    return None
+                if "?" in results or not results:
+                    return None
+                want = "none"
+                for c in cands:
+                    key = extra[1] if (extra is not None and extra[0] == c) else c
+                    if key in have:
+                        want = "P(%s)" % key
+                        break
+                if results == {want}:
+                    n += 1
+                else:
+                    out.viol(rule, "%s|model|%s|%s" % (rule, "+".join(have) or "-", "%s>%s" % extra if extra else "-"), ctx.where(pfp0),
+                             "grammar lookup for `src/My.Dir/%s` with parsers registered for {%s} and -E mapping %s: the result is %s; expected %s (candidates, in order: %s; each first mapped through -E; looked up as written)"
+                             % (NAME_, ", ".join(have), ("%s=%s" % extra) if extra else "none", sorted(results), want, cands))
+    out.inst(rule, n, total, ["file name Ab.Cd.e x 16 parser tables x 5 -E mappings: first hit among e, Cd.e, Ab.Cd.e (mapped through -E)"], exhaustive=True)
+    return n == total
+
+
 def run(ctx, out, tier):
     lp, rows = extract_table(ctx)
     n = 0
@@ -144,72 +239,86 @@ def run(ctx, out, tier):
                 pfp = b
             elif any(re.match(r"&(std::ffi::OsString|std::ffi::OsStr|str|std::string::String)$", b.local_ty(i)) for i in range(1, b.argc + 1)):
                 tpe = b
-    # normalised views (pipelines / combinators expanded); the per-suffix lookup stays a call
-    if pfp is not None:
-        tid = tpe.id if tpe is not None else None
-        pfp = ctx.inl(pfp, skip=lambda cb: ctx.domain_api(cb) or cb.id == tid, tag="C16", sugar=True)
-    if tpe is not None:
-        tpe = ctx.inl(tpe, skip=ctx.domain_api, tag="domain", sugar=True)
-    k = 0
+    # the lookup order on a small model; the structural rules below decide the same aspects when the model
+    # cannot follow the code
+    decided = None
     direction = "right"
-    if pfp is None:
-        out.viol("C16.lookup", "C16.lookup|fn", "-", "file-name -> parser lookup function not found")
-    else:
-        names = [callee_name(t).split("::")[-1] for bi, t in pfp.calls()]
-        if "match_indices" in names or "rmatch_indices" in names:
-            rev = ("rev" in names) != ("rmatch_indices" in names)
-            direction = "right" if rev else "left"
-            k += 1
-        elif "rsplit" in names or "split" in names or "extension" in names:
-            out.viol("C16.lookup", "C16.lookup|algorithm", ctx.where(pfp), "the lookup no longer tries every dot-suffix of the file name (%s): compound suffixes such as d.ts / go.mod cannot be found" % sorted(set(names))[:6])
-        # candidate suffix reaches the lookup unchanged
-        inner = tpe.id if tpe is not None else None
-        ALLOWED = [r"std::path::Path::file_name$", r"std::ffi::OsStr::to_str$", r"<impl str>::match_indices$", r"<impl str>::rmatch_indices$", r"Iterator::rev$", r"Iterator>?::next$",
-                   r"IntoIterator>?::into_iter$", r"Index<.*> for str>::index$|ops::Index::index$", r"OsString as std::convert::From<.*>>::from$", r"Try>?::branch$",
-                   r"std::ffi::OsStr::new$", r"AsRef<std::ffi::OsStr>>::as_ref$", r"HashMap::<K, V, S, A>::get$", r"Option::<T>::(map_or|unwrap_or)$", r"OsString::as_os_str$"]
-        sites = [(bi, t) for bi, t in pfp.calls() if inner and (t.get("res") or "") == inner]
-        if not sites and tpe is None:
-            sites = [(bi, t) for bi, t in pfp.calls() if callee_matches(t, r"HashMap::<K, V, S, A>::get$")]
-        for bi, t in sites:
-            # the candidate: first argument of the per-suffix lookup, or the key of a direct table lookup
-            cand = t["args"][1] if callee_matches(t, r"HashMap::<K, V, S, A>::get$") and len(t["args"]) > 1 else t["args"][0]
-            labs = ctx.prov.resolve_upvars(pfp, ctx.prov.read_operand(pfp, cand))
-            if not P.has_call(labs, r"std::path::Path::file_name$"):
-                out.viol("C16.lookup", "C16.lookup|not-file-name", ctx.where(pfp, t["span"]),
-                         "a lookup candidate derives from [%s], not from the file's own name (`Path::file_name`): the directories a file lies in must not influence which grammar is chosen" % util.origins_text({l for l in labs if l[0] == "call"}, 5))
-                continue
-            bad = sorted({l[1] for l in labs if l[0] == "call" and not any(re.search(a, l[1]) for a in ALLOWED)})
-            if bad:
-                out.viol("C16.lookup", "C16.lookup|candidate-transformed", ctx.where(pfp, t["span"]),
-                         "the candidate suffix is transformed by %s before the lookup: registered names and -E keys are matched exactly as written, so e.g. upper-case keys can no longer match and unregistered spellings start to match" % [b.split("::")[-1] for b in bad])
-            else:
+    if pfp is not None:
+        tr = out.trial()
+        try:
+            decided = check_lookup_model(ctx, tr, pfp)
+        except Exception as e:      # noqa: BLE001
+            ctx.view_fallbacks.append("C16.lookup: small-model analysis failed (%s: %s)" % (type(e).__name__, e))
+            decided = None
+        if decided is not None:
+            out.adopt(tr)
+    if decided is None:
+        # normalised views (pipelines / combinators expanded); the per-suffix lookup stays a call
+        if pfp is not None:
+            tid = tpe.id if tpe is not None else None
+            pfp = ctx.inl(pfp, skip=lambda cb: ctx.domain_api(cb) or cb.id == tid, tag="C16", sugar=True)
+        if tpe is not None:
+            tpe = ctx.inl(tpe, skip=ctx.domain_api, tag="domain", sugar=True)
+        k = 0
+        direction = "right"
+        if pfp is None:
+            out.viol("C16.lookup", "C16.lookup|fn", "-", "file-name -> parser lookup function not found")
+        else:
+            names = [callee_name(t).split("::")[-1] for bi, t in pfp.calls()]
+            if "match_indices" in names or "rmatch_indices" in names:
+                rev = ("rev" in names) != ("rmatch_indices" in names)
+                direction = "right" if rev else "left"
                 k += 1
-        # the whole name is the fallback (Makefile, go.mod …)
-        cfg = cfg_of(pfp)
-        loops = cfg.loops()
-        after = [bi for bi, t in sites if not cfg.loops_containing(bi)]
-        if after:
-            k += 1
-        else:
-            out.viol("C16.lookup", "C16.lookup|whole-name", ctx.where(pfp), "no lookup of the whole file name after the dot-suffixes (extension-less names such as Makefile could not be found)")
-    if tpe is not None:
-        cfg = cfg_of(tpe)
-        gets = [(bi, t) for bi, t in tpe.calls() if callee_matches(t, r"HashMap::<K, V, S, A>::get$")]
-        extra_gets = [(bi, t) for bi, t in gets if "HashMap<std::ffi::OsString, std::ffi::OsString>" in (t.get("arg_tys") or [""])[0]]
-        parser_gets = [(bi, t) for bi, t in gets if "BlocksParser" in (t.get("arg_tys") or [""])[0]]
-        if len(extra_gets) == 1 and len(parser_gets) >= 1 and all(cfg.dominates(extra_gets[0][0], bi) for bi, t in parser_gets):
-            k += 1
-            # the key used for the built-in table is the mapped value when there is one
-            for bi, t in parser_gets:
-                labs = ctx.prov.read_operand(tpe, t["args"][1])
-                if P.has_call(labs, r"HashMap::<K, V, S, A>::get$") and any(l[0] == "param" and l[1] == 1 for l in labs):
-                    k += 1
+            elif "rsplit" in names or "split" in names or "extension" in names:
+                out.viol("C16.lookup", "C16.lookup|algorithm", ctx.where(pfp), "the lookup no longer tries every dot-suffix of the file name (%s): compound suffixes such as d.ts / go.mod cannot be found" % sorted(set(names))[:6])
+            # candidate suffix reaches the lookup unchanged
+            inner = tpe.id if tpe is not None else None
+            ALLOWED = [r"std::path::Path::file_name$", r"std::ffi::OsStr::to_str$", r"<impl str>::match_indices$", r"<impl str>::rmatch_indices$", r"Iterator::rev$", r"Iterator>?::next$",
+                       r"IntoIterator>?::into_iter$", r"Index<.*> for str>::index$|ops::Index::index$", r"OsString as std::convert::From<.*>>::from$", r"Try>?::branch$",
+                       r"std::ffi::OsStr::new$", r"AsRef<std::ffi::OsStr>>::as_ref$", r"HashMap::<K, V, S, A>::get$", r"Option::<T>::(map_or|unwrap_or)$", r"OsString::as_os_str$"]
+            sites = [(bi, t) for bi, t in pfp.calls() if inner and (t.get("res") or "") == inner]
+            if not sites and tpe is None:
+                sites = [(bi, t) for bi, t in pfp.calls() if callee_matches(t, r"HashMap::<K, V, S, A>::get$")]
+            for bi, t in sites:
+                # the candidate: first argument of the per-suffix lookup, or the key of a direct table lookup
+                cand = t["args"][1] if callee_matches(t, r"HashMap::<K, V, S, A>::get$") and len(t["args"]) > 1 else t["args"][0]
+                labs = ctx.prov.resolve_upvars(pfp, ctx.prov.read_operand(pfp, cand))
+                if not P.has_call(labs, r"std::path::Path::file_name$"):
+                    out.viol("C16.lookup", "C16.lookup|not-file-name", ctx.where(pfp, t["span"]),
+                             "a lookup candidate derives from [%s], not from the file's own name (`Path::file_name`): the directories a file lies in must not influence which grammar is chosen" % util.origins_text({l for l in labs if l[0] == "call"}, 5))
+                    continue
+                bad = sorted({l[1] for l in labs if l[0] == "call" and not any(re.search(a, l[1]) for a in ALLOWED)})
+                if bad:
+                    out.viol("C16.lookup", "C16.lookup|candidate-transformed", ctx.where(pfp, t["span"]),
+                             "the candidate suffix is transformed by %s before the lookup: registered names and -E keys are matched exactly as written, so e.g. upper-case keys can no longer match and unregistered spellings start to match" % [b.split("::")[-1] for b in bad])
                 else:
-                    out.viol("C16.remap", "C16.remap|key", ctx.where(tpe, t["span"]), "the built-in table is not consulted with (mapped suffix, else the suffix itself)")
-        else:
-            out.viol("C16.remap", "C16.remap|order", ctx.where(tpe),
-                     "the built-in table is consulted before (or without) the user's -E mapping: a mapping whose key is itself a registered suffix is accepted up front and then silently ignored")
-    out.inst("C16.lookup", k, 6, ["dot-suffixes from the %s, then whole name; extra map first" % direction])
+                    k += 1
+            # the whole name is the fallback (Makefile, go.mod …)
+            cfg = cfg_of(pfp)
+            loops = cfg.loops()
+            after = [bi for bi, t in sites if not cfg.loops_containing(bi)]
+            if after:
+                k += 1
+            else:
+                out.viol("C16.lookup", "C16.lookup|whole-name", ctx.where(pfp), "no lookup of the whole file name after the dot-suffixes (extension-less names such as Makefile could not be found)")
+        if tpe is not None:
+            cfg = cfg_of(tpe)
+            gets = [(bi, t) for bi, t in tpe.calls() if callee_matches(t, r"HashMap::<K, V, S, A>::get$")]
+            extra_gets = [(bi, t) for bi, t in gets if "HashMap<std::ffi::OsString, std::ffi::OsString>" in (t.get("arg_tys") or [""])[0]]
+            parser_gets = [(bi, t) for bi, t in gets if "BlocksParser" in (t.get("arg_tys") or [""])[0]]
+            if len(extra_gets) == 1 and len(parser_gets) >= 1 and all(cfg.dominates(extra_gets[0][0], bi) for bi, t in parser_gets):
+                k += 1
+                # the key used for the built-in table is the mapped value when there is one
+                for bi, t in parser_gets:
+                    labs = ctx.prov.read_operand(tpe, t["args"][1])
+                    if P.has_call(labs, r"HashMap::<K, V, S, A>::get$") and any(l[0] == "param" and l[1] == 1 for l in labs):
+                        k += 1
+                    else:
+                        out.viol("C16.remap", "C16.remap|key", ctx.where(tpe, t["span"]), "the built-in table is not consulted with (mapped suffix, else the suffix itself)")
+            else:
+                out.viol("C16.remap", "C16.remap|order", ctx.where(tpe),
+                         "the built-in table is consulted before (or without) the user's -E mapping: a mapping whose key is itself a registered suffix is accepted up front and then silently ignored")
+        out.inst("C16.lookup", k, 6, ["dot-suffixes from the %s, then whole name; extra map first" % direction])
 
     # ------------------------------------------------------------------ C16.shadow (table computation)
     s_ok = 0
